@@ -5,4 +5,11 @@ set -e
 for t in cbmc goto-cc goto-instrument kissat gcc python3; do command -v $t >/dev/null || { echo "missing tool $t"; exit 1; }; done
 chmod +x /verif/vcheck /verif/tools/*.sh /verif/tools/*.py 2>/dev/null || true
 mkdir -p /verif/evidence /verif/replay/out
+# differential self-test of the trusted specification helpers (reference address parser,
+# printf model, strtol/strtoul model) against glibc
+T=$(mktemp -d)
+sed 's/^int vsnprintf/int model_vsnprintf/; s/^int snprintf/int model_snprintf/; s/r = vsnprintf(/r = model_vsnprintf(/' /verif/stubs/printf_model.c > $T/pm.c
+sed 's/^long strtol/long model_strtol/; s/^unsigned long strtoul/unsigned long model_strtoul/' /verif/stubs/strto_model.c > $T/st.c
+gcc -O1 -w -I/repo -I/verif -I/verif/include -DVERIF_NATIVE /verif/tools/spec_selftest.c $T/pm.c $T/st.c -o $T/selftest && $T/selftest
+rc=$?; rm -rf $T; [ $rc = 0 ] || exit 1
 echo "setup ok: $(cbmc --version)"
